@@ -199,8 +199,13 @@ KERNEL_CATS = ["kernel", "Kernel", "gpu_memset", "Memset", "gpu_memcpy", "Memcpy
 
 
 def select_rel_vcs() -> List[core.VC]:
-    """get_idle_time_breakdown up to the per-stream loop, relationally: analysed rows and the launch timestamp look-up."""
-    name = f"{PROP}.get_idle_time_breakdown"
+    return _select_rel_vcs(None, "") + _select_rel_vcs([z3.Int("requested_stream_1"), z3.Int("requested_stream_2")], ".stream_subset")
+
+
+def _select_rel_vcs(streams_arg, suffix: str) -> List[core.VC]:
+    """get_idle_time_breakdown up to the per-stream loop, relationally: analysed rows and the launch timestamp look-up
+    (with all streams, and with an explicit stream subset: the subset must only choose which streams are analysed)."""
+    name = f"{PROP}.get_idle_time_breakdown{suffix}"
     f = extract.get_function(BA, "BreakdownAnalysis.get_idle_time_breakdown")
     node = extract.stripped(f)
     fq = [f.fq]
@@ -217,7 +222,7 @@ def select_rel_vcs() -> List[core.VC]:
     ex.methods["Record.get_trace"] = lambda exq, pc, env, obj, args, kwargs: df
     t = pyvc.Record("Trace", {"symbol_table": st})
     env: Dict[str, Any] = {"cls": pyvc.Record("BreakdownAnalysis", {}), "t": t, "consecutive_kernel_delay": z3.Int("delay"), "rank": z3.Int("rank"),
-                           "streams": None, "visualize": False, "visualize_pctg": False, "show_idle_interval_stats": False}
+                           "streams": streams_arg, "visualize": False, "visualize_pctg": False, "show_idle_interval_stats": False}
     pc: List[Any] = []
     gk = None
     for stt in node.body:
